@@ -55,6 +55,17 @@ func (f *FakeStream) Push(r *pubsubpb.StreamingPullRequest) bool {
 	}
 }
 
+// CloseSend half-closes the stream the way a client's CloseSend does: the
+// handler's next Recv returns io.EOF. No Push may follow.
+func (f *FakeStream) CloseSend() {
+	f.mu.Lock()
+	defer f.mu.Unlock()
+	if !f.closed {
+		f.closed = true
+		close(f.in)
+	}
+}
+
 // Cancel ends the stream the way a client disconnect does.
 func (f *FakeStream) Cancel() { f.cancel() }
 
